@@ -58,7 +58,11 @@ SpecOutcome(ev) ==
     THEN [k |-> "fail", err |-> EINVAL, m |-> "none", canon |-> <<>>, validated |-> FALSE]
     ELSE S!Outcome(Enabled, ev.s, ev.pl)
 
-AnyFault(ev) == \E i \in 1..Len(ev.led) : ev.led[i].failed = 1
+\* an injected failure that the call could not recover from.  The one documented recovery is
+\* the huge-page attempt of the yescrypt region (op "H"): when it fails the plain mapping is tried.
+AnyFault(ev) == \E i \in 1..Len(ev.led) :
+                   /\ ev.led[i].failed = 1
+                   /\ ~(ev.led[i].op = "H" /\ i < Len(ev.led) /\ ev.led[i + 1].op = "M" /\ ev.led[i + 1].failed = 0)
 ReallocFailed(ev) == ev.e = "crypt_ra" /\ Len(ev.led) > 0 /\ ev.led[1].op = "r" /\ ev.led[1].failed = 1
 Grew(ev) == ev.e = "crypt_ra" /\ Len(ev.led) > 0 /\ ev.led[1].op = "r" /\ ev.led[1].failed = 0
 ErasedFirst(ev) == ev.led[1].hadold = 0 \/ ev.presize <= 0 \/ ev.led[1].oldzero = 1
@@ -121,9 +125,12 @@ C_Distinct(ev) ==
 \* C10: a setting produced by crypt_gensalt* hashes successfully and is kept literally in the hash
 C_Literal(ev) == ev.gs = 1 => (ObservedSuccess(ev) /\ S!StartsWith(ev.out, ev.s))
 \* C14: the handle after crypt_ra
+MustGrow(ev) == ev.predata = 0 \/ ev.presize < SIZEOF
 C_Handle(ev) ==
   ev.e = "crypt_ra" =>
     /\ ev.badfree = 0
+    /\ (MustGrow(ev) => (Grew(ev) \/ ReallocFailed(ev)))          \* NULL, negative or too-small size: reallocate
+    /\ (ev.ret = "out" => ev.postsize >= SIZEOF)
     /\ (Grew(ev) => ev.postdata = 1 /\ ev.postsize = SIZEOF /\ ev.blocksize >= SIZEOF)
     /\ (~Grew(ev) => ev.moved = 0 /\ ev.postsize = ev.presize)
     /\ (ev.ret = "out" => ev.postdata = 1 /\ ev.blocksize >= SIZEOF)
@@ -148,6 +155,7 @@ JudgeHash(ev) ==
       \* under an injected fault a failing call is judged as C15; the shape of the failure is the same
       coreV == {V(IF AnyFault(ev) /\ n \in {"FailClosed", "NoStale", "Token", "Wiped"} THEN "C15" ELSE PropOf(n), n) : n \in core}
       conc == (IF C_Confined(ev) THEN {} ELSE {V("C04", "Confined")})
+              \cup (IF "Result" \in core /\ (pre.scr = Junk \/ pre.out = Junk) THEN {V("C04", "UninitDependence")} ELSE {})
               \cup (IF C_NoLeak(ev) THEN {} ELSE {V("C09", "NoLeak")})
               \cup (IF C_Shape(ev, oc) THEN {} ELSE {V("C06", "Shape")})
               \cup (IF C_CanonPrefix(ev, oc) THEN {} ELSE {V("C06", "CanonPrefix")})
